@@ -547,6 +547,10 @@ func (vc *VC) intBinop(op token.Token, x, y string, t, yT types.Type, ni numInfo
 			}
 			return "(ite (>= " + x + " 0) (mod " + x + " " + y + ") (- (mod (- " + x + ") " + y + ")))", rt
 		}
+		if vc.absRem {
+			// `absrem` units: remainder by a non-constant divisor as an abstract function with its range facts only
+			return vc.trem(x, y), rt
+		}
 		if !ni.signed {
 			// unsigned operands are non-negative: Go's remainder is the SMT (Euclidean) mod for every divisor > 0
 			// (divisor 0 panics in Go and never yields a value).  The range of the result is stated as a ground fact
@@ -620,6 +624,26 @@ func maskBits(v *big.Int) (int, bool) {
 		return p.BitLen() - 1, true
 	}
 	return 0, false
+}
+
+// trem: Go's remainder x % y with a non-constant divisor, as a function symbol with its definition (x - y*tdiv(x,y)) as a
+// triggered axiom plus the derived range fact for a non-negative dividend and a positive divisor. Two occurrences with equal
+// operands are then equal by congruence (no nonlinear reasoning needed), and index-in-range facts follow from the range axiom.
+func (vc *VC) trem(x, y string) string {
+	name := "trem"
+	if _, ok := vc.decls[name]; !ok {
+		vc.tdiv("0", "1")
+		vc.declare(name, "(declare-fun trem (Int Int) Int)")
+		if !vc.absRem {
+			vc.axiom("(forall ((a Int) (b Int)) (! (= (trem a b) (- a (* b (tdiv a b)))) :pattern ((trem a b))))")
+		} else {
+			// `absrem` units: the remainder is left abstract (only consequences of its definition that need no
+			// multiplication are stated); whatever is proved this way also holds of the real remainder
+			vc.axiom("(forall ((a Int) (b Int)) (! (=> (and (>= a 0) (> b a)) (= (trem a b) a)) :pattern ((trem a b))))")
+		}
+		vc.axiom("(forall ((a Int) (b Int)) (! (=> (and (>= a 0) (> b 0)) (and (<= 0 (trem a b)) (< (trem a b) b))) :pattern ((trem a b))))")
+	}
+	return "(trem " + x + " " + y + ")"
 }
 
 func (vc *VC) tdiv(x, y string) string {
